@@ -175,6 +175,13 @@ def _small_jobs():
         canon = all(tuple(m) == (((0,), (0, 1)) if i == 0 else ((1,), (1, 0)))[len(m) - 1] for i, (g, m) in enumerate(seq))
         if canon:
             add("tf_eager", _circ(2, "num", seq), "point", ["tf_eager"])
+    # (lead) d = 3, depth 2: a two-mode gate followed by a single-mode ACTIVE gate on every mode.  Hand-written
+    # back-propagation rules that flatten (state-index matrix) cotangents only show an ordering error when the
+    # index matrices have more than one column, i.e. from d = 3 on -- d <= 2 is blind to a transposed einsum there
+    for pair in ((0, 1), (1, 2), (2, 0)):
+        for act in ("D", "S", "C"):
+            for mode in (0, 1, 2):
+                add("tf_eager", _circ(3, "num", [("B", pair), (act, (mode,))]), "duo", ["tf_eager"])
     # batched states: canonical modes, base point and the all(-1) corner
     for g, m in _canonical_alphabet(2):
         for batch in ("prep", "apply"):
